@@ -30,32 +30,35 @@ def stage(pid, tier, seed, wd, rep):
 
     # 1. the faithful model: system invariants over every interleaving of inputs, firings, deliveries and restarts;
     #    the same run prints one behaviour per state it generates (model -> code, step 3)
-    r = mc("MC_SioSystem_export.cfg" if tier == "quick" else "MC_SioSystem_export5.cfg")
-    if not r["ok"]:
-        raise vlib.CannotRun("SioSystem.tla: the system invariants do not hold on the model:\n" + r["out"][-3000:])
-    gen += r["generated"]
-    dist += r["distinct"]
-    main_states = r["distinct"]
-    export_out = r["out"]
-    if tier != "quick":
-        r = mc("MC_SioSystem_6.cfg", workers=16, timeout=6000)
-        if not r["ok"]:
-            raise vlib.CannotRun("SioSystem.tla (depth 6): the system invariants do not hold on the model:\n" + r["out"][-3000:])
-        gen += r["generated"]
-        dist += r["distinct"]
-        main_states = r["distinct"]
     # 2. sensitivity: shapes that TLC must refute, and the idealised shape on which the scenario invariant holds
+    #    (all TLC runs of this stage go in parallel)
+    import concurrent.futures as cf0
+    plan = [("main", "MC_SioSystem_export.cfg" if tier == "quick" else "MC_SioSystem_export5.cfg", 6)]
+    if tier != "quick":
+        plan.append(("deep", "MC_SioSystem_6.cfg", 8))
     for cfg, inv, what in NEG:
-        r = mc(cfg)
+        plan.append(("neg:" + inv, cfg, 2))
+    plan.append(("ideal", "MC_SioSystem_relock_ideal.cfg" if tier == "quick" else "MC_SioSystem_relock_ideal5.cfg", 4))
+    with cf0.ThreadPoolExecutor(max_workers=len(plan)) as ex:
+        results = list(ex.map(lambda t3: (t3[0], t3[1], mc(t3[1], workers=t3[2], timeout=6000)), plan))
+    main_states = 0
+    export_out = ""
+    for name, cfg, r in results:
         gen += r["generated"]
         dist += r["distinct"]
-        if r["ok"] or ("Invariant %s is violated" % inv) not in r["out"]:
-            raise vlib.CannotRun("SioSystem.tla / %s: expected a refutation of %s (%s)\n%s" % (cfg, inv, what, r["out"][-1500:]))
-    r = mc("MC_SioSystem_relock_ideal.cfg" if tier == "quick" else "MC_SioSystem_relock_ideal5.cfg")
-    gen += r["generated"]
-    dist += r["distinct"]
-    if not r["ok"]:
-        raise vlib.CannotRun("SioSystem.tla: RelockScheduledUndisturbed should hold on the idealised shape:\n" + r["out"][-1500:])
+        if name in ("main", "deep"):
+            if not r["ok"]:
+                raise vlib.CannotRun("SioSystem.tla (%s): the system invariants do not hold on the model:\n%s" % (cfg, r["out"][-3000:]))
+            main_states = max(main_states, r["distinct"])
+            if name == "main":
+                export_out = r["out"]
+        elif name == "ideal":
+            if not r["ok"]:
+                raise vlib.CannotRun("SioSystem.tla: RelockScheduledUndisturbed should hold on the idealised shape:\n" + r["out"][-1500:])
+        else:
+            inv = name[4:]
+            if r["ok"] or ("Invariant %s is violated" % inv) not in r["out"]:
+                raise vlib.CannotRun("SioSystem.tla / %s: expected a refutation of %s\n%s" % (cfg, inv, r["out"][-1500:]))
     # 3. model -> code: the exported behaviours are replayed on the real crew
     behs = set()
     for line in export_out.splitlines():
@@ -76,12 +79,36 @@ def stage(pid, tier, seed, wd, rep):
         for b in behs:
             f.write('{"acts":%s}\n' % b)
     out = os.path.join(wd, "system_runs.ndjson")
-    vlib.run([drv, "replay", bfile, out], timeout=3000)
+    import concurrent.futures as cf
+
+    def rshard(i):
+        part = behs[i::8]
+        bf = os.path.join(wd, "behaviours_%02d.ndjson" % i)
+        with open(bf, "w") as f:
+            for b in part:
+                f.write('{"acts":%s}\n' % b)
+        o = os.path.join(wd, "system_runs_%02d.ndjson" % i)
+        vlib.run([drv, "replay", bf, o], timeout=6000)
+        return o
+    with cf.ThreadPoolExecutor(max_workers=8) as ex:
+        parts = list(ex.map(rshard, range(8)))
+    k = 0
+    with open(out, "w") as f:
+        for o in parts:
+            for line in open(o):
+                k += 1
+                c = json.loads(line)
+                c["id"] = k
+                f.write(json.dumps(c) + "\n")
     # 4. code -> model: random behaviours chosen from what the REAL crew enables
     rnd = os.path.join(wd, "system_random.ndjson")
     vlib.run([drv, "random", str(1500 if tier == "quick" else 30000), str(seed), "10" if tier == "quick" else "14", rnd], timeout=6000)
     with open(out, "a") as f:
-        f.write(open(rnd).read())
+        for line in open(rnd):
+            k += 1
+            c = json.loads(line)
+            c["id"] = k
+            f.write(json.dumps(c) + "\n")
     jd = vlib.fresh_dir(pid, "judge_system")
     bad, stats, t = vlib.judge_cases(jd, "Trace_System.tla", "Trace_System.cfg", out, extra_files=[cfgfile])
     TIMEOUTS = {"goroutine-never-waited", "goroutine-stuck", "emitted-nothing"}
